@@ -54,6 +54,28 @@ def case(draw, tier="quick"):
     return {"d": d, "op": op.name, "shape": shape, "vs": vs, "bcast": bcast}
 
 
+BIG_SHAPES = [[8, 8], [4, 4, 4], [64], [2, 40], [65], [16, 4], [1, 64]]
+# operations that end in the batched numeric kernels (inverse, adjugate, determinant, components of a quadric), which switch formulas at 64 matrices
+KERNEL_OPS = {d: [o for o in COLL_OPS[d] if o.name.startswith(("t*", "t.", "t**", "q.", "pair.", "circle."))] for d in (2, 3)}
+
+
+@st.composite
+def big_case(draw, tier="quick"):
+    d = draw(st.sampled_from([2, 3]))
+    shape = draw(st.sampled_from(BIG_SHAPES))
+    vs = [draw(Z.params()) for _ in range(6)]
+    op = C.uniform_pick(KERNEL_OPS[d], vs)
+    nargs = len(op.args)
+    bcast = [draw(st.integers(0, 3)) == 0 for _ in range(nargs)]
+    if all(bcast):
+        bcast[draw(st.integers(0, nargs - 1))] = False
+    if (op.name.startswith("t*") or op.name == "t.apply") and nargs >= 2 and not bcast[0] and bcast[1]:
+        # a TransformationCollection applied to a single object is the known finding KF-C04-1 (reported through collection_vs_single):
+        # excluded here by construction, so that the search goes on behind it
+        bcast[1] = False
+    return {"d": d, "op": op.name, "shape": shape, "vs": vs, "bcast": bcast}
+
+
 def pools_for(c):
     d = c["d"]
     npos = C.prod(c["shape"])
@@ -604,6 +626,9 @@ def run_tric(c):
 LAWS = [
     Law("collection_vs_single", lambda tier: case(tier), run, nontrivial, labels, {"quick": 3500, "thorough": 80000},
         "collection result at every position == single-object result there, with broadcasting", shard=250, mandatory=("one-axis", "several-axes", "one-axis+broadcast")),
+    Law("many_elements", lambda tier: big_case(tier), run, lambda c: True, lambda c: [c["op"], "several-axes:>=64" if len(c["shape"]) > 1 else "one-axis:>=64"], {"quick": 480, "thorough": 6000},
+        "collections of 64 and more elements, in one and in several axes (8x8, 4x4x4, 2x40, 16x4, 1x64), for the operations that end in the batched numeric kernels (transformations applied / inverted / powers, quadric contains / tangent / dual / components / intersect): every position equals the single call",
+        shard=20, mandatory=("several-axes:>=64", "one-axis:>=64")),
     Law("components_mixed_magnitude", lambda tier: mag_case(tier), run_mag, lambda c: len(set(c["exp"])) > 1, lambda c: ["mixed" if len(set(c["exp"])) > 1 else "uniform"],
         {"quick": 500, "thorough": 8000}, "QuadricCollection.components for line pairs whose matrices differ in magnitude by up to 1e4 vs the single-object results", shard=250),
     Law("predicates_extra_arguments", lambda tier: __import__("vp.props.c10", fromlist=["x"]).mixed_case(tier), run_pred_coll, lambda c: len({p["mode"] for p in c["pos"]}) > 1,
